@@ -34,6 +34,14 @@ func verifHome() string {
 	return "/verif"
 }
 
+// outHome is where evidence and replays are written (the self-test redirects it away from /verif).
+func outHome() string {
+	if h := os.Getenv("VERIF_OUT"); h != "" {
+		return h
+	}
+	return verifHome()
+}
+
 func loadRules() ([]UnitRule, error) {
 	f, err := os.Open(filepath.Join(verifHome(), "contracts", "properties.map"))
 	if err != nil {
@@ -429,9 +437,9 @@ func CheckMain(args []string) int {
 			"not_decided":              notDecided(prop),
 			"integer_semantics":        "Go machine integers modelled exactly: SMT Int with explicit wrap-around (wrap64 / mod 2^k) at every arithmetic operation and conversion",
 		}}
-	os.MkdirAll(filepath.Join(verifHome(), "evidence"), 0o755)
+	os.MkdirAll(filepath.Join(outHome(), "evidence"), 0o755)
 	eb, _ := json.MarshalIndent(ev, "", " ")
-	os.WriteFile(filepath.Join(verifHome(), "evidence", prop+".json"), eb, 0o644)
+	os.WriteFile(filepath.Join(outHome(), "evidence", prop+".json"), eb, 0o644)
 	fmt.Printf("%s %s: %d obligations, %d discharged, %d known findings, %d violations, %d units, %.1fs\n", prop, tier, len(all), proved, knownHit, viol, funcs, time.Since(t0).Seconds())
 	return exit
 }
@@ -484,7 +492,7 @@ func trustedBase() []string {
 }
 
 func writeReplay(p *Program, prop string, o *Obligation, opts SolveOpts) string {
-	dir := filepath.Join(verifHome(), "replays", prop)
+	dir := filepath.Join(outHome(), "replays", prop)
 	os.MkdirAll(dir, 0o755)
 	name := strings.NewReplacer("/", "_", " ", "_", "(", "", ")", "", "*", "P", ":", "_", "#", "-", "\"", "", "'", "", "[", "", "]", "", "|", "", "&", "", "<", "lt", ">", "gt", "=", "eq", ",", "", "!", "not", "~", "-", "$", "_").Replace(o.Name)
 	if len(name) > 120 {
